@@ -254,7 +254,14 @@ func (g *fnGen) varOf(e ast.Expr) *types.Var {
 			return v
 		}
 	case *ast.SelectorExpr: // x.f = ... assigns the record variable x
+		if tv, ok := g.info.Types[x.X]; ok && g.t.objectOf(tv.Type) != nil {
+			return nil // a store through an object pointer
+		}
 		if sel, ok := g.info.Selections[x]; ok && sel.Kind() == types.FieldVal {
+			return g.varOf(x.X)
+		}
+	case *ast.StarExpr: // *fs = ... assigns the slice variable fs
+		if tv, ok := g.info.Types[x.X]; ok && ptrSliceOf(tv.Type) {
 			return g.varOf(x.X)
 		}
 	}
@@ -1029,6 +1036,11 @@ func (g *fnGen) typeOf(e ast.Expr) types.Type {
 // assignTo: lines that store the value v in the place lhs
 func (g *fnGen) assignTo(lhs ast.Expr, v string) []string {
 	switch x := ast.Unparen(lhs).(type) {
+	case *ast.StarExpr:
+		if id, ok := ast.Unparen(x.X).(*ast.Ident); ok && ptrSliceOf(g.typeOf(x.X)) {
+			return []string{"let " + coqIdent(id.Name) + " := " + v + " in"}
+		}
+		g.failf(lhs, "assignment through a pointer")
 	case *ast.Ident:
 		if x.Name == "_" {
 			return nil
@@ -1049,6 +1061,11 @@ func (g *fnGen) assignTo(lhs ast.Expr, v string) []string {
 		sel, ok := g.info.Selections[x]
 		if !ok || sel.Kind() != types.FieldVal {
 			g.failf(lhs, "assignment to this selector")
+		}
+		if n := g.t.objectOf(g.typeOf(x.X)); n != nil {
+			var p []binding
+			st := g.lvalue(lhs, &p)
+			return emitPre(p, st(v))
 		}
 		if rootIdent(g.info, x.X) == nil {
 			g.failf(lhs, "assignment to a field of something that is not a variable or a field path")
@@ -1071,6 +1088,34 @@ func (g *fnGen) assignTo(lhs ast.Expr, v string) []string {
 	}
 	g.failf(lhs, "assignment to %T", lhs)
 	return nil
+}
+
+// lvalue evaluates the operands of the place lhs (first phase of an
+// assignment) and returns the lines that store a value there (second phase)
+func (g *fnGen) lvalue(lhs ast.Expr, p *[]binding) func(v string) []string {
+	switch x := ast.Unparen(lhs).(type) {
+	case *ast.IndexExpr:
+		if !isSliceType(g.typeOf(x.X)) {
+			g.failf(lhs, "assignment to an element of %s", g.typeOf(x.X))
+		}
+		s := g.expr(x.X, p)
+		i := g.expr(x.Index, p)
+		return func(v string) []string {
+			return []string{"_ <- store " + paren(s) + " " + paren(i) + " " + paren(v) + " ;;"}
+		}
+	case *ast.SelectorExpr:
+		if n := g.t.objectOf(g.typeOf(x.X)); n != nil {
+			k, fty := g.t.objField(lhs, n, x.Sel.Name)
+			ptr := g.expr(x.X, p)
+			return func(v string) []string {
+				if isBoolType(fty) {
+					v = "b2z " + paren(v)
+				}
+				return []string{fmt.Sprintf("_ <- fld_store %s %d %s ;;", paren(ptr), k, paren(v))}
+			}
+		}
+	}
+	return func(v string) []string { return g.assignTo(lhs, v) }
 }
 
 var opOfAssign = map[token.Token]token.Token{
@@ -1164,6 +1209,30 @@ func (g *fnGen) assign(s *ast.AssignStmt) []string {
 	case len(s.Lhs) == len(s.Rhs):
 		var p []binding
 		var vals, pats []string
+		allIdent := true
+		for _, l := range s.Lhs {
+			_, ok := ast.Unparen(l).(*ast.Ident)
+			allIdent = allIdent && ok
+		}
+		if !allIdent {
+			// phase 1: operands of the places and the right-hand sides; phase 2:
+			// the stores, left to right
+			var stores []func(string) []string
+			for _, l := range s.Lhs {
+				stores = append(stores, g.lvalue(l, &p))
+			}
+			var tmps []string
+			for i, r := range s.Rhs {
+				v := g.exprAs(r, g.lhsType(s.Lhs[i], r), &p)
+				tmp := g.fresh()
+				p = append(p, binding{pat: tmp, rhs: v, isLet: true})
+				tmps = append(tmps, tmp)
+			}
+			for i, st := range stores {
+				p = append(p, binding{raw: st(tmps[i])})
+			}
+			return emitPre(p, nil)
+		}
 		for i, r := range s.Rhs {
 			id, ok := ast.Unparen(s.Lhs[i]).(*ast.Ident)
 			if !ok {
@@ -1335,6 +1404,16 @@ func (g *fnGen) expr(e ast.Expr, p *[]binding) string {
 			if sel.Kind() != types.FieldVal {
 				g.failf(e, "method value")
 			}
+			if on := g.t.objectOf(g.typeOf(x.X)); on != nil {
+				k, fty := g.t.objField(e, on, x.Sel.Name)
+				ptr := g.expr(x.X, p)
+				tmp := g.fresh()
+				*p = append(*p, binding{pat: tmp, rhs: fmt.Sprintf("fld_load %s %d", paren(ptr), k)})
+				if isBoolType(fty) {
+					return "(z2b " + tmp + ")"
+				}
+				return tmp
+			}
 			n := g.t.structOf(g.typeOf(x.X))
 			if n == nil {
 				g.failf(e, "field of %s", g.typeOf(x.X))
@@ -1349,7 +1428,20 @@ func (g *fnGen) expr(e ast.Expr, p *[]binding) string {
 			return "Err" // io.EOF, errors.ErrExhausted ...: a non-nil error value
 		}
 		g.failf(e, "qualified identifier %s", x.Sel.Name)
+	case *ast.TypeAssertExpr:
+		// x.(*S) with x of type any and S an object type: the handle is the
+		// object id (a value of another dynamic type would panic in Go; callers
+		// are assumed to pass objects of this type)
+		if x.Type != nil && isEmptyInterface(g.typeOf(x.X)) && g.t.objectOf(g.typeOf(x.Type)) != nil {
+			return g.expr(x.X, p)
+		}
+		g.failf(e, "type assertion (only any to a pointer to an object type, or the comma-ok form between opaque types)")
 	case *ast.StarExpr:
+		if ptrSliceOf(g.typeOf(x.X)) {
+			if _, ok := ast.Unparen(x.X).(*ast.Ident); ok {
+				return g.expr(x.X, p) // the variable holds the slice value
+			}
+		}
 		// *new(T): the zero value of T
 		if call, ok := ast.Unparen(x.X).(*ast.CallExpr); ok {
 			if id, ok := ast.Unparen(call.Fun).(*ast.Ident); ok && id.Name == "new" {
@@ -1682,6 +1774,14 @@ func (g *fnGen) effectCall(call *ast.CallExpr, p *[]binding) (string, bool) {
 				d := g.expr(call.Args[0], p)
 				s := g.expr(call.Args[1], p)
 				return "gocopy " + paren(d) + " " + paren(s), true
+			case "append":
+				if len(call.Args) != 2 || call.Ellipsis != token.NoPos || !isSliceType(g.typeOf(call.Args[0])) {
+					g.failf(call, "append other than append(s, v)")
+				}
+				g.t.coqType(call, g.typeOf(call.Args[0]))
+				sl := g.expr(call.Args[0], p)
+				el := g.exprAs(call.Args[1], g.typeOf(call.Args[0]).Underlying().(*types.Slice).Elem(), p)
+				return "goappend " + paren(sl) + " " + paren(el), true
 			case "make":
 				if len(call.Args) != 2 || !isSliceType(g.typeOf(call.Args[0])) {
 					g.failf(call, "make other than make([]T, n)")
@@ -1735,7 +1835,7 @@ func (g *fnGen) call(call *ast.CallExpr, p *[]binding) string {
 					g.failf(call, "%s of %s", id.Name, ta)
 				}
 				return "(s_" + id.Name + " " + paren(g.expr(call.Args[0], p)) + ")"
-			case "copy", "make":
+			case "copy", "make", "append":
 				term, _ := g.effectCall(call, p)
 				tmp := g.fresh()
 				*p = append(*p, binding{pat: tmp, rhs: term})
